@@ -239,15 +239,37 @@ class Dispatch:
         return self._concurrent_batch or gather_calls() == old(gather_calls())
 
     def ensures_rejected(self, request_text, context, result):
-        # C03: text that is not JSON -> -32700; JSON that is not a valid request / non-empty valid batch -> -32600;
-        # both with id null, as ONE response object (a batch is rejected as a whole) and nothing executed
-        if uf('is_json_text', request_text) and uf('has_huge_int_literal', request_text):
-            return True                                     # see known finding (integer literal limit)
-        if not uf('is_json_text', request_text):
-            doc = ufv('doc_of', result[0]) if result is not None else None
-            return (result is not None and wf_response_obj(doc) and member(doc, 'id') is None
-                    and code_of(doc) == -32700 and tlen() == old(tlen()))
-        return True
+        # C03: text that is not JSON (incl. a text the loader rejects with a plain ValueError: integer literal beyond
+        # the interpreter limit) -> -32700 with id null, as ONE response object, and nothing executed
+        if uf('is_json_text', request_text) and not uf('has_huge_int_literal', request_text):
+            return True
+        doc = ufv('doc_of', result[0]) if result is not None else None
+        return (result is not None and wf_response_obj(doc) and member(doc, 'id') is None
+                and code_of(doc) == -32700 and tlen() == old(tlen()))
+
+    def ensures_invalid_request(self, request_text, context, result):
+        # C03: JSON that is neither a valid request object nor an array is answered by ONE -32600 response with id null
+        # and nothing is executed
+        if not (uf('is_json_text', request_text) and not uf('has_huge_int_literal', request_text)):
+            return True
+        v = ufv('parsed', request_text)
+        if isinstance(v, (list, tuple)) or valid_request_obj(v):
+            return True
+        doc = ufv('doc_of', result[0]) if result is not None else None
+        return (result is not None and wf_response_obj(doc) and member(doc, 'id') is None
+                and code_of(doc) == -32600 and tlen() == old(tlen()))
+
+    def ensures_invalid_batch(self, request_text, context, result):
+        # C03: an array that is empty or has an invalid element is rejected AS A WHOLE: one -32600 response, id null,
+        # nothing executed
+        if not (uf('is_json_text', request_text) and not uf('has_huge_int_literal', request_text)):
+            return True
+        v = ufv('parsed', request_text)
+        if not isinstance(v, list) or (len(v) > 0 and all(valid_request_obj(x) for x in v)):
+            return True
+        doc = ufv('doc_of', result[0]) if result is not None else None
+        return (result is not None and wf_response_obj(doc) and member(doc, 'id') is None
+                and code_of(doc) == -32600 and tlen() == old(tlen()))
 
 
 # ------------------------------------------------------------------------------------------------ C12: the middleware chain
